@@ -51,6 +51,16 @@ class Ob:
             return
         self.findings.append(Finding(key, where, message, witness))
 
+    def funnel(self, construct: str, where: str, message: str, through: bool, expected: str, witness: str = "", detail: str = "callee", wrong: bool = False) -> None:
+        """Verdict of a wrapper rule ("f answers through g").  A return that bypasses ``g`` NEXT TO one that goes
+        through it is a rule of f's own - a violation.  When no return goes through ``g`` at all, f has been
+        re-implemented: what is proved about ``g`` no longer says anything about f, and nothing is known - unless
+        it answers through a conversion function that takes the OTHER kind of input (``wrong``)."""
+        if through or wrong:
+            self.violate(construct, where, message, witness, detail)
+        else:
+            self.undecide(f"{construct.rsplit('.', 1)[-1]} does not go through {expected} at all (re-implemented): what is proved about {expected} does not carry over to it")
+
     def undecide(self, reason: str) -> None:
         if reason not in self.undecided:
             self.undecided.append(reason)
